@@ -96,9 +96,10 @@ def to_recs(s, r):
         oc = r.get("outcome", "ok")
         if oc == "ok" and (g1 is None or g2 is None):
             oc = "missing"
-        out.append({"id": s["id"], "tree": [path_struct(p) for p in s["tree"]], "pat": pat_struct(pat), "pats": pat, "trees": s["tree"],
+        out.append({"id": s["id"], "tree": [path_struct(p) for p in s["tree"] + s.get("induced", [])], "pat": pat_struct(pat), "pats": pat,
+                    "trees": s["tree"] + ["%s -> %s" % (l[0], l[1]) for l in s.get("links", [])],
                     "got1": [path_struct(p) if p != "." else [] for p in (g1 or [])], "got2": [path_struct(p) if p != "." else [] for p in (g2 or [])],
-                    "g1s": g1, "outcome": oc, "err": r.get("err", "")})
+                    "g1s": g1, "outcome": oc, "err": r.get("err", ""), "files": s["tree"], "links": s.get("links", []), "induced": s.get("induced", [])})
     return out
 
 
@@ -135,6 +136,16 @@ def run(ctx):
     for n in range(len(paths) + 1):
         for sub in itertools.combinations(paths, n):
             scen.append({"id": len(scen) + 1, "tree": list(sub), "pats": PATS})
+    # symbolic links to a directory of the tree: the files seen through the link are files under the spokfile's directory too
+    # (their relative path exists and matches or not like any other); a hidden link hides them
+    rnd = random.Random(ctx.seed)
+    withsub = [sc for sc in scen if any(p.startswith("sub/") for p in sc["tree"])]
+    for sc in rnd.sample(withsub, min(len(withsub), 150 if tier == "quick" else 1500)):
+        for lnk in ("lnk", ".hl", "zz/in"):
+            ind = [lnk + p[len("sub"):] for p in sc["tree"] if p.startswith("sub/")]
+            if any(p == lnk or p.startswith(lnk + "/") for p in sc["tree"]):
+                continue
+            scen.append({"id": len(scen) + 1, "tree": sc["tree"], "pats": PATS, "links": [[lnk, "sub" if "/" not in lnk else "../sub"]], "induced": ind})
     nsh = min(vlib.NCPU, 12)
     shards = [scen[i::nsh] for i in range(nsh)]
     recs = []
@@ -168,7 +179,7 @@ def run(ctx):
         if shape in seen:
             continue
         seen.add(shape)
-        s = {"id": 1, "tree": r["trees"], "pats": [r["pats"]]}
+        s = {"id": 1, "tree": r["files"], "pats": [r["pats"]], "links": r["links"], "induced": r["induced"]}
         again = to_recs(s, drive(ctx, driver, [s], 900 + len(seen))[0])
         v = judge(ctx, again, pool, 98)
         if not v["Conforms_C05"]:
